@@ -212,13 +212,13 @@ func decodeTwoRegistersAndTwoImmediates(instructionCode []byte, pc ProgramCounte
 	lY := immLen(skipLength, lX+2)
 
 	vXData := zetaBytes(instructionCode, pc+3, lX)
-	vX, _, err := ReadUintFixed(vXData, len(vXData))
+	vX, _, err := ReadUintSignExtended(vXData, len(vXData))
 	if err != nil {
 		return 0, 0, 0, 0, err
 	}
 
 	vYData := zetaBytes(instructionCode, pc+3+lX, lY)
-	vY, _, err := ReadUintFixed(vYData, len(vYData))
+	vY, _, err := ReadUintSignExtended(vYData, len(vYData))
 	if err != nil {
 		return 0, 0, 0, 0, err
 	}
